@@ -52,6 +52,36 @@ def _dc(variant, vi, ty="?", adt=None):
 VARIANTS = {OPTION: {"None": 0, "Some": 1}, RESULT: {"Ok": 0, "Err": 1}}
 
 
+def split_generic(ty):
+    """'std::result::Result<A<B, C>, D>' -> ['A<B, C>', 'D'] (top-level generic arguments)."""
+    if not ty or "<" not in ty or not ty.endswith(">"):
+        return []
+    inner = ty[ty.index("<") + 1:-1]
+    out, depth, cur = [], 0, ""
+    for ch in inner:
+        if ch in "<([":
+            depth += 1
+        elif ch in ">)]":
+            depth -= 1
+        if ch == "," and depth == 0:
+            out.append(cur.strip())
+            cur = ""
+        else:
+            cur += ch
+    if cur.strip():
+        out.append(cur.strip())
+    return out
+
+
+def payload_ty(self_ty, variant):
+    a = split_generic(self_ty or "")
+    if variant in ("Some", "Ok") and a:
+        return a[0]
+    if variant == "Err" and len(a) >= 2:
+        return a[1]
+    return "?"
+
+
 class Flattener:
     def __init__(self, facts, keep=(), expand=True, max_depth=8, max_blocks=20000, thread=True):
         self.facts = facts
@@ -417,6 +447,8 @@ class _State:
         name = c["def"]
         if name == "std::ops::Try::branch" and self.fl.thread:
             return self._expand_try_branch(i, b, t, c)
+        if name == "std::ops::FromResidual::from_residual" and self.fl.thread:
+            return self._expand_from_residual(i, b, t, c)
         m = re.match(r"std::(option::Option|result::Result)::<[^>]*>::(\w+)$", name)
         if not m:
             if name == "std::bool::<impl bool>::then" or name.endswith("::<impl bool>::then"):
@@ -448,8 +480,10 @@ class _State:
                 return None
             return f, cl[1]
 
+        xty = c.get("self_ty") or ""
+
         def payload(variant):
-            return {"l": x["l"], "p": list(x["p"]) + _dc(variant, V[variant], adt=adt)}
+            return {"l": x["l"], "p": list(x["p"]) + _dc(variant, V[variant], ty=payload_ty(xty, variant), adt=adt)}
 
         def switch_on_x(on_pos, on_neg):
             d = self.new_local("isize")
@@ -608,10 +642,11 @@ class _State:
         V = VARIANTS[adt]
         dest, target = t["dest"], t["t"]
         CF = "std::ops::ControlFlow"
-        cont = self.new_block([_assign(copy.deepcopy(dest), _adt(CF, "Continue", 0, [{"k": "move", "pl": {"l": x["l"], "p": list(x["p"]) + _dc(pos, V[pos], adt=adt)}}]), line)], _goto(target, line), i)
+        xty = st if st.startswith("std::") else (res[1:res.index(" as ")] if " as " in res else "")
+        cont = self.new_block([_assign(copy.deepcopy(dest), _adt(CF, "Continue", 0, [{"k": "move", "pl": {"l": x["l"], "p": list(x["p"]) + _dc(pos, V[pos], ty=payload_ty(xty, pos), adt=adt)}}]), line)], _goto(target, line), i)
         tmp = self.new_local("?residual")
         if adt == RESULT:
-            inner = _adt(RESULT, "Err", 1, [{"k": "move", "pl": {"l": x["l"], "p": list(x["p"]) + _dc("Err", 1, adt=adt)}}])
+            inner = _adt(RESULT, "Err", 1, [{"k": "move", "pl": {"l": x["l"], "p": list(x["p"]) + _dc("Err", 1, ty=payload_ty(xty, "Err"), adt=adt)}}])
         else:
             inner = _adt(OPTION, "None", 0, [])
         brk = self.new_block([_assign(_pl(tmp), inner, line), _assign(copy.deepcopy(dest), _adt(CF, "Break", 1, [_mv(tmp)]), line)], _goto(target, line), i)
@@ -620,6 +655,36 @@ class _State:
         b["stmts"] = b["stmts"] + [_assign(_pl(d), {"k": "discr", "pl": copy.deepcopy(x), "adt": adt}, line)]
         pairs = sorted([[V[pos], cont], [V[neg], brk]])
         b["term"] = {"k": "switch", "op": _mv(d), "ty": "isize", "targets": pairs, "otherwise": dead, "line": line, "exp": False, "expanded": "Try::branch"}
+        return True
+
+    def _expand_from_residual(self, i, b, t, c):
+        """The error arm of `x?`: `return Err(From::from(e))` (Result) / `return None` (Option), written out, so that
+        `?` and a hand-written `match x { Err(e) => return Err(e.into()), Ok(v) => v }` are the same thing."""
+        args = c.get("args") or []
+        st = c.get("self_ty") or (args[0] if args else "")
+        ops = t["ops"]
+        line = t.get("line", 0)
+        if len(ops) != 1 or ops[0].get("k") not in ("move", "copy"):
+            return False
+        r = ops[0]["pl"]
+        dest, target = t["dest"], t["t"]
+        if st.startswith("std::option::Option<"):
+            b["stmts"] = b["stmts"] + [_assign(copy.deepcopy(dest), _adt(OPTION, "None", 0, []), line)]
+            b["term"] = _goto(target, line)
+            b["term"]["expanded"] = "from_residual"
+            return True
+        if not st.startswith("std::result::Result<"):
+            return False
+        m = re.match(r"std::result::Result<std::convert::Infallible, (.*)>$", args[1]) if len(args) >= 2 else None
+        e_ty = m.group(1) if m else "?"
+        e = self.new_local(e_ty)
+        conv = self.new_local("?converted")
+        fin = self.new_block([_assign(copy.deepcopy(dest), dict(_adt(RESULT, "Err", 1, [_mv(conv)]), residual_of=e_ty), line)], _goto(target, line), i)
+        b["stmts"] = b["stmts"] + [_assign(_pl(e), _use({"k": "move", "pl": {"l": r["l"], "p": list(r["p"]) + _dc("Err", 1, adt=RESULT)}}), line)]
+        callee = {"def": "std::convert::From::from", "name": "from", "krate": "core", "args": ["?", e_ty], "self_ty": "?", "trait": "std::convert::From",
+                  "resolved": None, "resolved_args": None, "synth": "from_residual"}
+        b["term"] = {"k": "call", "callee": callee, "fn_op": {"k": "const", "ty": "fn", "val": None, "uneval": None, "fn": callee}, "ops": [_mv(e)],
+                     "dest": _pl(conv), "t": fin, "cline": line, "cexp": False, "line": line, "exp": False, "expanded": "from_residual"}
         return True
 
     # ------------------------------------------------------------------------------------ jump threading
@@ -633,13 +698,20 @@ class _State:
         while changed and rounds < 600 and len(self.blocks) < self.fl.max_blocks:
             changed = False
             rounds += 1
-            preds = {}
-            for i, b in enumerate(self.blocks):
-                if b["cleanup"]:
+            # only live blocks count: inlining leaves the replaced call chains behind as dead code
+            live = set()
+            stack_ = [0]
+            while stack_:
+                x_ = stack_.pop()
+                if x_ in live or self.blocks[x_]["cleanup"]:
                     continue
-                for s_ in self._succs(b["term"]):
+                live.add(x_)
+                stack_.extend(self._succs(self.blocks[x_]["term"]))
+            preds = {}
+            for i in live:
+                for s_ in self._succs(self.blocks[i]["term"]):
                     preds.setdefault(s_, []).append(i)
-            for S in range(len(self.blocks)):
+            for S in sorted(live):
                 b = self.blocks[S]
                 t = b["term"]
                 if b["cleanup"] or t["k"] != "switch" or t["op"].get("k") not in ("move", "copy") or t["op"]["pl"]["p"]:
@@ -658,34 +730,26 @@ class _State:
                     if len(ps) != 1:
                         break
                     pb = self.blocks[ps[0]]
-                    if pb["term"]["k"] not in ("goto", "drop", "falseedge") or ps[0] in chain or len(chain) > 6:
+                    if pb["term"]["k"] not in ("goto", "drop", "falseedge") or ps[0] in chain or len(chain) > 40:
                         break
                     nst += len(pb["stmts"])
                     cur = ps[0]
                     chain.insert(0, cur)
-                if nst > 16:
+                if nst > 60:
                     continue
                 head = chain[0]
-                # which local holds the literal when the chain is entered: follow `X = move Y` inside the chain
-                tracked = X
-                ok_chain = True
+                # which value decides the switch when the chain is entered: follow `X = move Y`, `X = move (R as V).i`
+                # and literals inside the chain
+                state = (X, ())
                 for c in reversed(chain):
                     cb = self.blocks[c]
                     stmts_ = cb["stmts"] if c != S else cb["stmts"][:cb["stmts"].index(dst[0])]
-                    for st in reversed(stmts_):
-                        if st["lhs"]["l"] != tracked:
-                            continue
-                        rv = st.get("rv") or {}
-                        if st["k"] == "assign" and not st["lhs"]["p"] and rv.get("k") == "use" and rv["op"].get("k") in ("move", "copy") and not rv["op"]["pl"]["p"]:
-                            tracked = rv["op"]["pl"]["l"]
-                        else:
-                            ok_chain = False
-                            break
-                    if not ok_chain:
+                    state = self._track_back(stmts_, state)
+                    if state is None or isinstance(state, int):
                         break
-                if not ok_chain:
-                    continue
-                X_in = tracked
+                if state is None or isinstance(state, int):
+                    continue        # undecidable, or decided inside the chain itself (nothing to thread from predecessors)
+                X_in = state
                 for P in list(preds.get(head, [])):
                     if P in chain:
                         continue
@@ -745,38 +809,64 @@ class _State:
         t = block["term"]
         return t["k"] == "call" and t["dest"]["l"] == X
 
-    def _variant_at_end(self, P, X, preds, depth=0):
-        """Variant index of the enum literal the local X holds when control leaves block P, if evident."""
-        b = self.blocks[P]
-        t = b["term"]
-        if t["k"] == "call" and t["dest"]["l"] == X:
-            return None
-        for st in reversed(b["stmts"]):
-            if st["lhs"]["l"] != X:
+    @staticmethod
+    def _track_back(stmts, state):
+        """Walk statements backwards. state = (local, path): the value of interest is `local` projected through
+        path = ((variant, field), ...). Returns the new state, an int (variant index found), or None (unknown)."""
+        tracked, path = state
+        for st in reversed(stmts):
+            if st["lhs"]["l"] != tracked:
                 continue
-            if st["lhs"]["p"] or st["k"] != "assign":
+            if st["k"] != "assign" or st["lhs"]["p"]:
                 return None
             rv = st["rv"]
+            if rv["k"] == "use" and rv["op"].get("k") in ("move", "copy"):
+                pr = [p for p in rv["op"]["pl"]["p"] if p != "deref"]
+                if not pr:
+                    tracked = rv["op"]["pl"]["l"]
+                    continue
+                if len(pr) == 2 and isinstance(pr[0], dict) and "dc" in pr[0] and isinstance(pr[1], dict) and "f" in pr[1]:
+                    tracked = rv["op"]["pl"]["l"]
+                    path = ((pr[0]["dc"], pr[1]["f"]),) + path
+                    continue
+                return None
             if rv["k"] == "agg" and rv.get("what") == "adt" and "vi" in rv:
-                return rv["vi"]
-            if rv["k"] == "use" and rv["op"].get("k") in ("move", "copy") and not rv["op"]["pl"]["p"] and depth < 6:
-                # X = move Y: the literal is the one Y holds at this point
-                idx = b["stmts"].index(st)
-                Y = rv["op"]["pl"]["l"]
-                for st2 in reversed(b["stmts"][:idx]):
-                    if st2["lhs"]["l"] == Y:
-                        rv2 = st2.get("rv") or {}
-                        if st2["k"] == "assign" and not st2["lhs"]["p"] and rv2.get("k") == "agg" and rv2.get("what") == "adt" and "vi" in rv2:
-                            return rv2["vi"]
-                        return None
-                ps = preds.get(P, [])
-                if len(ps) == 1 and self.blocks[ps[0]]["term"]["k"] in ("goto", "drop", "falseedge"):
-                    return self._variant_at_end(ps[0], Y, preds, depth + 1)
+                if not path:
+                    return rv["vi"]
+                (v, f), rest = path[0], path[1:]
+                if rv.get("variant") != v or f >= len(rv["ops"]):
+                    return None
+                o = rv["ops"][f]
+                if o.get("k") in ("move", "copy") and not [p for p in o["pl"]["p"] if p != "deref"]:
+                    tracked, path = o["pl"]["l"], rest
+                    continue
+                return None
             return None
-        if depth < 6 and t["k"] in ("goto", "drop", "falseedge"):
+        return (tracked, path)
+
+    def _variant_at_end(self, P, state, preds, depth=0):
+        """Variant index of the enum literal that decides the switch, as evident when control leaves block P."""
+        b = self.blocks[P]
+        t = b["term"]
+        if t["k"] == "call" and t["dest"]["l"] == state[0]:
+            return None
+        r = self._track_back(b["stmts"], state)
+        if r is None or isinstance(r, int):
+            return r
+        if depth < 24:
             ps = preds.get(P, [])
-            if len(ps) == 1:
-                return self._variant_at_end(ps[0], X, preds, depth + 1)
+            if not ps or len(ps) > 4:
+                return None
+            vs = set()
+            for q in ps:
+                qt = self.blocks[q]["term"]
+                if qt["k"] not in ("goto", "drop", "falseedge", "call"):
+                    return None
+                if qt["k"] == "call" and (qt["dest"]["l"] == r[0] or qt.get("t") != P):
+                    return None
+                vs.add(self._variant_at_end(q, r, preds, depth + 1))
+            if len(vs) == 1 and None not in vs:
+                return vs.pop()     # every way into this block carries the same variant
         return None
 
     def _expand_bool_then(self, i, b, t, depth, stack):
